@@ -27,7 +27,7 @@ for d in $VERIF/seeded/$glob/; do
   if git apply $d/patch.diff 2>/dev/null; then
     s=FAIL; go build ./... >/dev/null 2>&1 && go test -vet=off -count=1 ./... >/dev/null 2>&1 && s=pass
     if [ -f $d/demo_test.go ]; then
-      pkg=$(grep -m1 '^package ' $d/demo_test.go | awk '{print $2}'); case $pkg in ucfg) dir=.;; *) dir=${pkg%_test};; esac
+      pkg=$(grep -m1 '^package ' $d/demo_test.go | awk '{print $2}'); case $pkg in ucfg|ucfg_test) dir=.;; *) dir=${pkg%_test};; esac
       cp $d/demo_test.go $dir/zz_demo_test.go
       w=passes; go test -vet=off -count=1 ./$dir >/dev/null 2>&1 || w=fails
       git checkout -q -- . ; wo=FAILS; go test -vet=off -count=1 ./$dir >/dev/null 2>&1 && wo=passes
